@@ -41,6 +41,7 @@ def check(run):
     depends_on(run, "C10")
     depends_on(run, "C12", {"TYPESTATE", "NOMUT"})
     depends_on(run, "C06", {"MERGE", "KEYS", "COUNT"})
+    depends_on(run, "C15", {"STORAGE", "DEFAULTS"})
     # ---- the per-feature loop --------------------------------------------------------------------
     imps = [(ev, ctx) for ev, ctx in walk(s.events) if is_call_to(ev, inc.imf, "impute")]
     run.need(imps, f"{fq} never calls the imputer")
